@@ -123,6 +123,10 @@ func (descriptor *pmtDescriptor) Format() string {
 }
 
 func (descriptor *pmtDescriptor) decode() string {
+	if descriptor.tag == STREAM_IDENTIFIER && len(descriptor.data) == 0 {
+		// component_tag is missing
+		return fmt.Sprintf("Stream Identifier (%d)", descriptor.tag)
+	}
 	switch descriptor.tag {
 	case LANGUAGE:
 		return fmt.Sprintf("ISO 639 Language (code=%s, audioType=0x%s)",
@@ -173,6 +177,9 @@ func (descriptor *pmtDescriptor) IsEBPDescriptor() bool {
 
 // Return the decoded Maximum_bitrate in units of 50 bytes per second
 func (descriptor *pmtDescriptor) DecodeMaximumBitRate() uint32 {
+	if len(descriptor.data) < 3 {
+		return 0
+	}
 	if descriptor.IsMaximumBitrateDescriptor() {
 		return uint32(descriptor.data[0]&0x1f)<<16 | uint32(descriptor.data[1])<<8 | uint32(descriptor.data[2])
 	}
@@ -180,6 +187,9 @@ func (descriptor *pmtDescriptor) DecodeMaximumBitRate() uint32 {
 }
 
 func (descriptor *pmtDescriptor) DecodeIso639LanguageCode() string {
+	if len(descriptor.data) < 3 {
+		return ""
+	}
 	if LANGUAGE == descriptor.tag {
 		return string(descriptor.data[0:3])
 	}
@@ -240,6 +250,10 @@ func (descriptor *pmtDescriptor) IsIFrameProfile() bool {
 		indx := uint8(0)
 		for indx < num_partitions {
 			indx++
+			if offset+1 >= len(descriptor.data) {
+				// the partition loop runs past the end of the descriptor
+				return false
+			}
 			EBP_data_explicit_flag := 1 == uint8((descriptor.data[offset]&0x80)>>7)
 			representation_id_flag := 1 == uint8((descriptor.data[offset]&0x04)>>6)
 
@@ -288,6 +302,10 @@ func (descriptor *pmtDescriptor) IsDolbyATMOS() bool {
 		language_flag_2 := false
 
 		start := uint8(2)
+		if bsid_flag && len(descriptor.data) < 3 {
+			// the byte carrying bsid and the language flags is missing
+			return false
+		}
 		if bsid_flag {
 			language_flag = 1 == uint8((descriptor.data[start]&0x80)>>7)   // 1 bit
 			language_flag_2 = 1 == uint8((descriptor.data[start]&0x40)>>6) // 1 bit
